@@ -98,7 +98,18 @@ def m_rt_consumer_late(v: dict) -> bool:
             and ex is not None and ex <= 1e-9)
 
 
+def m_remote_reset_while_idle(v: dict) -> bool:
+    """C14: run() hangs after a remote simulator process died while NO request was outstanding, and the
+    witness (where every task waits when the watchdog fires) shows a RemoteProxy request handler still
+    waiting on a channel whose reader task has ended: the channel (mosaik_api_v3.connection.Channel, outside
+    the repository) lost its connection with an error other than IncompleteReadError (connection reset) and
+    signalled nothing.  A hang after any other fault kind, or with every channel reader alive, is not matched."""
+    return (v.get("kind") == "run_hangs_after_fault" and (v.get("fault") or {}).get("how") == "exit_idle"
+            and (v.get("request_handlers_whose_channel_reader_is_gone") or 0) >= 1)
+
+
 MECHANISMS = {
+    "remote_reset_while_idle": m_remote_reset_while_idle,
     "async_substep_deadlock": m_async_substep_deadlock,
     "rt_consumer_late": m_rt_consumer_late,
     "subtime_data_path": m_subtime_data_path,
